@@ -2,6 +2,8 @@
    case 0 (Registry.Gather):   (0 legacy pedantic reg_ids arrivals impl_families impl_errors)
      arrivals are in the order in which processMetric saw them (the driver logs the Desc() calls)
    case 1 (Gatherers.Gather):  (1 legacy ((families errors) ...) impl_families impl_errors)
+   case 2 (two arrival orders of the same metrics):
+                               (2 legacy pedantic reg_ids arrivals1 families1 errors1 arrivals2 families2 errors2)
    emitted := (checked (desc_err name help id ((n v) ...) (var ...)) write_err dmetric)
    dmetric := (((n v) ...) gauge counter summary untyped histogram (ts)? val)
    family  := (name help type (dmetric ...)) ; errors := list of error kinds (Model/Gather.v) *)
@@ -54,17 +56,24 @@ Definition d_family (s : sx) : option family :=
 
 Definition d_gatherer (s : sx) : option (list family * list Z) := dP (dL d_family) (dL dZ) s.
 
-(* comparison of results: headers in order, metrics of a family as multisets
-   (sort.Sort is not stable and MetricSorter.Less is not total, so the order of ties is not compared) *)
+(* comparison of results: families and the metrics inside a family in order.  MetricSorter.Less is a strict total order
+   on metrics with distinct (labels, timestamp), so sort.Sort has exactly one possible outcome (metric_lt_* lemmas). *)
 Definition multiset_eqb {A} (eqb : A -> A -> bool) (a b : list A) : bool :=
   match sub_multiset eqb a b with Some [] => true | _ => false end.
+
+Fixpoint list_eqb {A} (eqb : A -> A -> bool) (a b : list A) : bool :=
+  match a, b with
+  | [], [] => true
+  | x :: a', y :: b' => eqb x y && list_eqb eqb a' b'
+  | _, _ => false
+  end.
 
 Fixpoint fams_eqb (a b : list family) : bool :=
   match a, b with
   | [], [] => true
   | f :: a', g :: b' =>
       str_eqb (f_name f) (f_name g) && str_eqb (f_help f) (f_help g) && (f_type f =? f_type g) &&
-      multiset_eqb dmetric_eqb (f_metrics f) (f_metrics g) && fams_eqb a' b'
+      list_eqb dmetric_eqb (f_metrics f) (f_metrics g) && fams_eqb a' b'
   | _, _ => false
   end.
 
@@ -79,19 +88,20 @@ Definition both (spec_ok model_ok : bool) : Z :=
   if negb spec_ok then code_spec_violation else if negb model_ok then code_model_mismatch else code_ok.
 
 
-(* the input-side facts the theorems assume (guaranteed by NewDesc): a Desc without error has a non-empty name *)
-Definition names_nonempty (arr : list emitted) : bool :=
-  forallb (fun e => ds_err (e_desc e) || match ds_name (e_desc e) with [] => false | _ => true end) arr.
+Definition is_nil {A} (l : list A) : bool := match l with [] => true | _ => false end.
+
+(* one Registry.Gather run against model and specification *)
+Definition check_gather (lg ped : bool) (ids : list Z) (arr : list emitted) (ifams : list family) (ierrs : list Z) : Z :=
+  let (mfams, merrs) := gather lg ped ids arr in
+  both (valid_result lg ifams && family_names_ok lg ifams && no_empty_family ifams &&
+        complete_or_reported arr ifams (length ierrs))
+       (fams_eqb ifams mfams && zs_eqb ierrs merrs).
 
 Definition check (s : sx) : Z :=
   match s with
   | SL [SZ 0; lg; ped; ids; arr; ifams; ierrs] =>
       match dB lg, dB ped, dL dZ ids, dL d_emitted arr, dL d_family ifams, dL dZ ierrs with
-      | Some lg, Some ped, Some ids, Some arr, Some ifams, Some ierrs =>
-          if negb (names_nonempty arr) then code_decode_error else
-          let (mfams, merrs) := gather lg ped ids arr in
-          both (valid_result lg ifams && no_empty_family ifams && complete_or_reported arr ifams (length ierrs))
-               (fams_eqb ifams mfams && zs_eqb ierrs merrs)
+      | Some lg, Some ped, Some ids, Some arr, Some ifams, Some ierrs => check_gather lg ped ids arr ifams ierrs
       | _, _, _, _, _, _ => code_decode_error
       end
   | SL [SZ 1; lg; gs; ifams; ierrs] =>
@@ -105,6 +115,20 @@ Definition check (s : sx) : Z :=
                (fams_eqb ifams mfams && zs_eqb ierrs merrs)
       | _, _, _, _ => code_decode_error
       end
+  (* the same metrics gathered in two arrival orders: whenever no error is reported the result must not depend on the order *)
+  | SL [SZ 2; lg; ped; ids; arr1; ifams1; ierrs1; arr2; ifams2; ierrs2] =>
+      match dB lg, dB ped, dL dZ ids, dL d_emitted arr1, dL d_family ifams1, dL dZ ierrs1,
+            dL d_emitted arr2, dL d_family ifams2, dL dZ ierrs2 with
+      | Some lg, Some ped, Some ids, Some arr1, Some ifams1, Some ierrs1, Some arr2, Some ifams2, Some ierrs2 =>
+          let c1 := check_gather lg ped ids arr1 ifams1 ierrs1 in
+          let c2 := check_gather lg ped ids arr2 ifams2 ierrs2 in
+          if negb (multiset_eqb nm_eqb (map emitted_as arr1) (map emitted_as arr2)) then code_decode_error
+          else if (is_nil ierrs1 || is_nil ierrs2) && negb (is_nil ierrs1 && is_nil ierrs2 && fams_eqb ifams1 ifams2)
+          then code_spec_violation
+          else if (c1 =? code_spec_violation) || (c2 =? code_spec_violation) then code_spec_violation
+          else if (c1 =? code_ok) && (c2 =? code_ok) then code_ok else code_model_mismatch
+      | _, _, _, _, _, _, _, _, _ => code_decode_error
+      end
   | _ => code_decode_error
   end.
 
@@ -114,17 +138,22 @@ Definition e_dmetric (m : dmetric) : sx :=
       eOpt SZ (d_ts m); SZ (d_val m)].
 Definition e_family (f : family) : sx := SL [eStr (f_name f); eStr (f_help f); SZ (f_type f); eL e_dmetric (f_metrics f)].
 
-(* (model families, model errors, valid_result of the implementation's families, no_empty, complete_or_reported) *)
+(* (model families, model errors, valid_result of the implementation's families, no_empty, complete_or_reported,
+   family_names_ok); for a pair of orders (case 2): the explanation of both runs *)
+Definition explain_gather (lg ped ids arr ifams ierrs : sx) : sx :=
+  match dB lg, dB ped, dL dZ ids, dL d_emitted arr, dL d_family ifams, dL dZ ierrs with
+  | Some lg, Some ped, Some ids, Some arr, Some ifams, Some ierrs =>
+      let (mfams, merrs) := gather lg ped ids arr in
+      SL [eL e_family mfams; eL SZ merrs; eB (valid_result lg ifams); eB (no_empty_family ifams);
+          eB (complete_or_reported arr ifams (length ierrs)); eB (family_names_ok lg ifams)]
+  | _, _, _, _, _, _ => SL []
+  end.
+
 Definition explain (s : sx) : sx :=
   match s with
-  | SL [SZ 0; lg; ped; ids; arr; ifams; ierrs] =>
-      match dB lg, dB ped, dL dZ ids, dL d_emitted arr, dL d_family ifams, dL dZ ierrs with
-      | Some lg, Some ped, Some ids, Some arr, Some ifams, Some ierrs =>
-          let (mfams, merrs) := gather lg ped ids arr in
-          SL [eL e_family mfams; eL SZ merrs; eB (valid_result lg ifams); eB (no_empty_family ifams);
-              eB (complete_or_reported arr ifams (length ierrs))]
-      | _, _, _, _, _, _ => SL []
-      end
+  | SL [SZ 0; lg; ped; ids; arr; ifams; ierrs] => explain_gather lg ped ids arr ifams ierrs
+  | SL [SZ 2; lg; ped; ids; arr1; ifams1; ierrs1; arr2; ifams2; ierrs2] =>
+      SL [explain_gather lg ped ids arr1 ifams1 ierrs1; explain_gather lg ped ids arr2 ifams2 ierrs2]
   | SL [SZ 1; lg; gs; ifams; ierrs] =>
       match dB lg, dL d_gatherer gs, dL d_family ifams with
       | Some lg, Some gs, Some ifams =>
